@@ -224,7 +224,7 @@ class InputDataStorage:
             if not 'name' in sample.keys():
                 current_sample_name = self.experiment_prefix + str(current_index)
             else:
-                current_sample_name = sample['name']
+                current_sample_name = str(sample['name'])
             if current_sample_name in experiment_names:
                     new_sample_name = self.experiment_prefix + str(current_index)
                     if current_sample_name == new_sample_name or new_sample_name in experiment_names:
